@@ -806,6 +806,125 @@ class ResolverInterp(Interp):
         return super().truth_of(v, node)
 
 
+# ------------------------------------------------------------------------------ uses of a state mapping
+STORE_ATTR = "_target_power"          # group -> stored target (reported, summed, baseline of "unchanged")
+BUCKETS_ATTR = "_component_buckets"   # group -> proposals
+_MAP_REMOVERS = {"pop", "popitem", "clear", "__delitem__"}
+_MAP_WRITERS = {"update", "setdefault", "__setitem__", "__ior__"}
+_MAP_READERS = {"get", "keys", "values", "items", "copy", "__contains__", "__getitem__", "__len__", "__iter__"}
+_PURE_CALLS = {"len", "bool", "dict", "list", "tuple", "set", "frozenset", "sorted", "iter", "repr", "str", "any",
+               "all", "enumerate", "reversed", "id", "print", "min", "max", "sum", "isinstance", "type", "next"}
+
+
+def self_attr_ref(attr: str) -> Any:
+    """Predicate: the node is `self.<attr>`."""
+    return lambda n: (isinstance(n, ast.Attribute) and n.attr == attr and isinstance(n.value, ast.Name)
+                      and n.value.id == "self")
+
+
+def foreign_attr_ref(attr: str) -> Any:
+    """Predicate: the node is `<something other than self>.<attr>` (another object's state)."""
+    return lambda n: (isinstance(n, ast.Attribute) and n.attr == attr
+                      and not (isinstance(n.value, ast.Name) and n.value.id == "self"))
+
+
+def mapping_uses(fn: ast.AST, is_ref: Any) -> list[dict[str, Any]]:
+    """How a function uses a state mapping (references chosen by `is_ref`, plus local names bound to one).
+
+    Each use is {kind, node, how}: kind is
+      set     an entry is written (`m[k] = v`, `m[k] += v`, update / setdefault / |=)
+      remove  an entry is removed (`del m[k]`, pop / popitem / clear)
+      rebind  the attribute itself is assigned or deleted (`value`: the assigned expression or None)
+      read    look-ups, membership tests, iteration, copies, truthiness, pure builtins, logging
+      escape  the mapping is handed to code this function does not show (argument of a call that is not a
+              pure builtin, returned, stored in another object, unknown method)."""
+    from ..engine.resolver import parent_map
+
+    parents = parent_map(fn)
+    aliases: set[str] = set()
+
+    def ref(n: ast.AST) -> bool:
+        return bool(is_ref(n)) or (isinstance(n, ast.Name) and n.id in aliases)
+
+    changed = True
+    while changed:  # local names bound to the mapping (transitively)
+        changed = False
+        for n in ast.walk(fn):
+            tgt: ast.AST | None = None
+            if isinstance(n, ast.Assign) and len(n.targets) == 1 and ref(n.value):
+                tgt = n.targets[0]
+            elif isinstance(n, (ast.AnnAssign, ast.NamedExpr)) and n.value is not None and ref(n.value):
+                tgt = n.target
+            if isinstance(tgt, ast.Name) and tgt.id not in aliases:
+                aliases.add(tgt.id)
+                changed = True
+
+    out: list[dict[str, Any]] = []
+
+    def use(kind: str, node: ast.AST, how: str, **kw: Any) -> None:
+        out.append({"kind": kind, "node": node, "how": how, **kw})
+
+    for n in ast.walk(fn):
+        if not ref(n):
+            continue
+        p = parents.get(n)
+        ctx = getattr(n, "ctx", None)
+        if isinstance(n, ast.Attribute) and isinstance(ctx, (ast.Store, ast.Del)):
+            value = getattr(p, "value", None) if isinstance(p, (ast.Assign, ast.AnnAssign)) else None
+            use("rebind", p if p is not None else n, "the mapping itself is replaced", value=value)
+        elif isinstance(n, ast.Name) and isinstance(ctx, (ast.Store, ast.Del)):
+            continue  # (re)binding of the local alias, judged where its value comes from
+        elif isinstance(p, ast.Subscript) and p.value is n:
+            if isinstance(p.ctx, ast.Store):
+                use("set", parents.get(p, p), "an entry is assigned")
+            elif isinstance(p.ctx, ast.Del):
+                use("remove", parents.get(p, p), "an entry is deleted")
+            else:
+                use("read", p, "look-up")
+        elif isinstance(p, ast.Attribute) and p.value is n:
+            call = parents.get(p)
+            if not (isinstance(call, ast.Call) and call.func is p):
+                use("escape", p, f"bound method `.{p.attr}` taken")
+            elif p.attr in _MAP_REMOVERS:
+                use("remove", call, f"`.{p.attr}(...)` removes entries")
+            elif p.attr in _MAP_WRITERS:
+                use("set", call, f"`.{p.attr}(...)` writes entries")
+            elif p.attr in _MAP_READERS:
+                use("read", call, f"`.{p.attr}(...)`")
+            else:
+                use("escape", call, f"unknown method `.{p.attr}(...)`")
+        elif isinstance(p, ast.AugAssign) and p.target is n:
+            use("set", p, "augmented assignment of the mapping")
+        elif isinstance(p, (ast.Compare, ast.BoolOp, ast.UnaryOp, ast.If, ast.While, ast.IfExp, ast.Assert,
+                            ast.For, ast.AsyncFor, ast.comprehension, ast.Starred, ast.FormattedValue, ast.Expr)):
+            use("read", p, "test / iteration")
+        elif isinstance(p, ast.Dict) and any(v is n and k is None for k, v in zip(p.keys, p.values)):
+            use("read", p, "`{**m}` copy")
+        elif isinstance(p, (ast.Assign, ast.AnnAssign, ast.NamedExpr)) and getattr(p, "value", None) is n:
+            tgt2 = p.targets[0] if isinstance(p, ast.Assign) and len(p.targets) == 1 else getattr(p, "target", None)
+            if isinstance(tgt2, ast.Name):
+                use("read", p, "bound to a local name (followed)")
+            else:
+                use("escape", p, "stored in another object")
+        elif isinstance(p, (ast.Call, ast.keyword)):
+            call2 = p if isinstance(p, ast.Call) else parents.get(p)
+            name = ast.unparse(call2.func) if isinstance(call2, ast.Call) else "?"
+            if name in _PURE_CALLS or name.split(".", 1)[0] in ("_logger", "logging", "_log"):
+                use("read", p, f"argument of {name}")
+            else:
+                use("escape", call2 if call2 is not None else p, f"argument of `{name}(...)`")
+        else:
+            use("escape", p if p is not None else n, f"used in a {type(p).__name__}")
+    return out
+
+
+def is_empty_mapping(e: ast.AST | None) -> bool:
+    """`{}` or `dict()`."""
+    if isinstance(e, ast.Dict):
+        return not e.keys
+    return isinstance(e, ast.Call) and ast.unparse(e.func) == "dict" and not e.args and not e.keywords
+
+
 # ------------------------------------------------------------------------------ reachability
 def reachable_methods(prog: Program, cls: ClassInfo, root: FuncInfo, stop: Iterable[str] = ()) -> list[FuncInfo]:
     """`root` and the same-class methods it (transitively) calls through `self.<m>(...)`."""
@@ -1113,6 +1232,34 @@ def structural_controls(prog: Program, actor: str, module: str,
                 if kw is not None:
                     built["report target is not the stored target"] = _splice(mmod.source, kw.value, "None")
                     break
+    # 8. the group computed first is given bounds shifted by the other group's stored target
+    algo_calc = prog.resolve_method(prog.cls(ALGO), "calculate_target_power")
+    if calc is not None and sh is not None and algo_calc is not None and len(algo_calc.params) >= 4:
+        p_ids, _, p_bounds = algo_calc.params[1:4]
+        for fi in reachable_methods(prog, cls, calc, stop - {calc.name}):
+            if fi.module is not mod or "first group computed in shifted bounds" in built:
+                continue
+            for n in walk_no_nested(fi.node):
+                if not (isinstance(n, ast.Call) and isinstance(n.func, ast.Attribute)
+                        and n.func.attr == "calculate_target_power" and isinstance(n.func.value, ast.Attribute)
+                        and n.func.value.attr in GROUP_ATTRS and ast.unparse(n.func.value.value) == "self"):
+                    continue
+                kws = {k.arg: k.value for k in n.keywords}
+                b_arg = n.args[2] if len(n.args) > 2 else kws.get(p_bounds)
+                i_arg = n.args[0] if n.args else kws.get(p_ids)
+                if b_arg is None or i_arg is None or names["shift"] in ast.unparse(b_arg):
+                    continue
+                other = next(a for a in GROUP_ATTRS if a != n.func.value.attr)
+                built["first group computed in shifted bounds"] = _splice(
+                    src, b_arg, f"self.{names['shift']}({_seg(src, b_arg)}, "
+                                f"self.{other}.get_target_power({_seg(src, i_arg)}))")
+                break
+    # 9. the stored target is reset where proposals expire (a writer of the store besides the recalculation)
+    dp = prog.cls(MATRYOSHKA).methods.get("drop_old_proposals")
+    if dp is not None and dp.node.body:
+        last = dp.node.body[-1]
+        built["stored target reset when proposals expire"] = _splice(
+            mmod.source, last, f"{_seg(mmod.source, last)}\n{' ' * last.col_offset}self.{STORE_ATTR}.clear()")
     out = []
     for name, module_, old, new, rule in fallback:
         base = sources.get(module_, src)
